@@ -211,9 +211,6 @@ def contact_plane(X1, X2, epsilon1, epsilon2, youngs_modulus1, youngs_modulus2):
     # np.dot(normal, x) + d = 0 in the paper (page 7).
     plane_hnf[3] *= -1
 
-    if abs(plane_hnf[3]) < 10.0 * EPSILON:
-        return plane_hnf, True
-
     return plane_hnf, False
 
 
